@@ -70,9 +70,9 @@ CloseTmp(ok, complete) ==
              /\ UNCHANGED <<renamed, tmpStuck, exit>>
 (* rename(TMP, TGT): only a complete, closed output may get the final name, *)
 (* and the final name must not be the input's name.                         *)
+(* A rename that fails changes nothing and is therefore always harmless.     *)
 Rename(ok) == /\ exit = -1
-              /\ tmpDone /\ ~Alias
-              /\ (fs[T] = "absent" \/ Force)
+              /\ (ok => tmpDone /\ ~Alias /\ (fs[T] = "absent" \/ Force))
               /\ IF ok THEN /\ fs' = [fs EXCEPT ![T] = "out", !["TMP"] = "absent"] /\ renamed' = TRUE
                        ELSE UNCHANGED <<fs, renamed>>
               /\ UNCHANGED <<tmpOpen, tmpDone, broken, tmpStuck, exit>>
@@ -86,6 +86,14 @@ UnlinkTmp(ok) == /\ exit = -1 /\ ~tmpOpen
                  /\ IF ok THEN fs' = [fs EXCEPT !["TMP"] = "absent"] /\ tmpDone' = FALSE /\ UNCHANGED tmpStuck
                           ELSE UNCHANGED <<fs, tmpDone>> /\ tmpStuck' = TRUE
                  /\ UNCHANGED <<tmpOpen, broken, renamed, exit>>
+(* unlink(TMP) while it is still open for writing: what the signal handler does when the run   *)
+(* is interrupted during the copy.  The descriptor stays usable (writes go nowhere), the output *)
+(* can no longer become complete.                                                              *)
+UnlinkOpenTmp(ok) == /\ exit = -1 /\ tmpOpen
+                     /\ IF ok THEN fs' = [fs EXCEPT !["TMP"] = "absent"] /\ UNCHANGED tmpStuck
+                              ELSE UNCHANGED fs /\ tmpStuck' = TRUE
+                     /\ broken' = TRUE
+                     /\ UNCHANGED <<tmpOpen, tmpDone, renamed, exit>>
 (* process exit; the status must tell the truth *)
 Exit(code) == /\ exit = -1 /\ exit' = code
               /\ (code = 0 => ~broken /\ (renamed \/ Stdout))
